@@ -35,7 +35,7 @@ EXPECT_LABELS = {'all': ['no-nested-handling', 'attempt-iff-error', 'guard-relea
 EXPECT_NOTES = {'all': ['recursion-attempt', 'no-recursion', 'filtered-out', 'eventcond-none', 'cycle-broken-by-equal-value']}
 FLOORS = {'quick': {'paths': 1000, 'checks': 5000}, 'thorough': {'paths': 10000, 'checks': 50000}}
 
-KINDS = ['P', 'I', 'C', 'F']
+KINDS = ['P', 'I', 'C', 'F', 'O']
 
 
 class Reentered(BaseException):
@@ -111,10 +111,18 @@ def make_classes(tr):
 
         def calc_output(self):
             return self.sdata.get('v', 0) if self._state == 'on' else -1
-    return {'P': P, 'I': I, 'C': C, 'F': F}
+    class O(edzed.OutputFunc):
+        # an output block forwarding through its on_success events
+        def _event_put(self, **data):
+            tr.enter(self)
+            try:
+                return super()._event_put(**data)
+            finally:
+                tr.leave(self)
+    return {'P': P, 'I': I, 'C': C, 'F': F, 'O': O}
 
 
-def edge_event(env, tr, target_name, target_kind, tag):
+def edge_event(env, tr, target_name, target_kind, tag, from_kind='P'):
     """an Event towards the target with a final probe filter recording recursion attempts"""
     fk = env.pick(['none', 'sym-reject', 'eventcond'], f'filt_{tag}')
 
@@ -122,7 +130,8 @@ def edge_event(env, tr, target_name, target_kind, tag):
         if tr.active(target_name):
             tr.attempts += 1
         return True
-    filters = [edzed.not_from_undef]      # start-up assignments do not propagate
+    # start-up assignments do not propagate (on_success events of an OutputFunc carry no 'previous' item)
+    filters = [edzed.not_from_undef] if from_kind != 'O' else []
     cond = None
     if fk == 'sym-reject':
         cond = env.bool(f'pass_{tag}')
@@ -133,7 +142,7 @@ def edge_event(env, tr, target_name, target_kind, tag):
                 return False
             return True
         filters.append(flt)
-    etype = {'P': 'x', 'I': 'put', 'C': 'put', 'F': 'put'}[target_kind]
+    etype = {'P': 'x', 'I': 'put', 'C': 'put', 'F': 'put', 'O': 'put'}[target_kind]
     if fk == 'eventcond':
         etype = EventCond(etype, None)
 
@@ -154,14 +163,18 @@ def build(env, tr, kinds, wiring):
     blocks = []
     for i, k in enumerate(kinds):
         kw = {}
-        outs = [edge_event(env, tr, names[j], kinds[j], f'{i}_{j}_{n}') for n, (j, trg) in enumerate(wiring.get(i, []))
+        outs = [edge_event(env, tr, names[j], kinds[j], f'{i}_{j}_{n}', k) for n, (j, trg) in enumerate(wiring.get(i, []))
                 if trg == 'out']
-        evs = [edge_event(env, tr, names[j], kinds[j], f'{i}_{j}_e{n}') for n, (j, trg) in enumerate(wiring.get(i, []))
+        evs = [edge_event(env, tr, names[j], kinds[j], f'{i}_{j}_e{n}', k) for n, (j, trg) in enumerate(wiring.get(i, []))
                if trg == 'every']
-        if outs:
-            kw['on_output'] = outs
-        if evs:
-            kw['on_every_output'] = evs
+        if k == 'O':
+            # the only way out of an OutputFunc: its on_success events (sent for every processed put)
+            kw = {'func': (lambda value: value), 'on_success': outs + evs, 'on_error': None}
+        else:
+            if outs:
+                kw['on_output'] = outs
+            if evs:
+                kw['on_every_output'] = evs
         if k == 'I':
             kw['initdef'] = 0
         if k == 'F':
@@ -195,11 +208,11 @@ def external(env, tr, circ, blocks, kinds, n):
         try:
             if what == 'value':
                 v = env.int(f'v{step}')
-                blk.event({'P': 'x', 'I': 'put', 'C': 'put', 'F': 'put'}[k], value=v)
+                blk.event({'P': 'x', 'I': 'put', 'C': 'put', 'F': 'put', 'O': 'put'}[k], value=v)
             elif what == 'unknown':
                 blk.event('no_such_event_type', value=1)
             elif what == 'noparam':
-                blk.event({'P': 'x', 'I': 'put', 'C': 'put', 'F': 'toggle'}[k])
+                blk.event({'P': 'x', 'I': 'put', 'C': 'put', 'F': 'toggle', 'O': 'put'}[k])
             else:
                 r = blk.event(EventCond(None, None), value=1)
                 env.check('eventcond-none-result', r is None)
@@ -213,6 +226,10 @@ def external(env, tr, circ, blocks, kinds, n):
         if what == 'unknown':
             env.check('harmless-errors', isinstance(exc, edzed.EdzedUnknownEvent) and circ.error is err_before,
                       info=lambda: exc)
+        elif what == 'noparam' and k == 'O':
+            # OutputFunc takes **data and looks the items up itself: a missing 'value' is a KeyError inside the
+            # handler, which edzed rightly treats as a handler error; nothing is claimed about it here
+            return
         elif what == 'noparam' and k != 'F':
             env.check('harmless-errors', isinstance(exc, TypeError) and circ.error is err_before, info=lambda: exc)
         elif what == 'eventcond-none':
@@ -339,7 +356,7 @@ def shards(tier):
                         'cost': 20})
     shapes = ['cycle3', 'diamond', 'chain-back']
     for shape in shapes:
-        for kinds in (['P', 'P', 'P'], ['I', 'C', 'F'], ['F', 'I', 'P'], ['C', 'F', 'I']):
+        for kinds in (['P', 'P', 'P'], ['I', 'C', 'F'], ['F', 'I', 'P'], ['C', 'F', 'I'], ['I', 'O', 'P'], ['O', 'P', 'O']):
             out.append({'name': f'{shape} {"".join(kinds)}', 'scenario': 'scen_graph',
                         'params': {'kinds': kinds, 'max_out': 0, 'nev': 1 if tier == 'quick' else 2, 'shape': shape},
                         'cost': 10})
